@@ -34,8 +34,20 @@ def body(chk):
     for j in range(n_rand):
         cases.append(dict(level="1.5", seed=chk.seed + 2000 + j, k=j, random_classes=True, nfp=j % 13, files=("VOL",),
                           images=(("HH", None, 1, 1),), ctx=dict(creation_datetime=STAMPS[j % len(STAMPS)]), fs="local"))
+    # "all valid creation timestamps": the 16-character field is YYYYMMDDhhmmss + hundredths; Calendar!CompactRoundTrip states the exact
+    # decimal meaning of the two decimals.  Seconds x hundredths are swept (quick: a seeded sample; thorough: all 6000), dates rotate
+    import random as _r
+
+    rr = _r.Random(chk.seed + 77)
+    ssff = [(a, b) for a in range(60) for b in range(100)]
+    pick = ssff if chk.tier == "thorough" else rr.sample(ssff, 800)
+    days = ["20200229", "20141231", "20490101", "20160301", "20191130"]
+    for j, (ss, ff) in enumerate(pick):
+        stamp = f"{days[j % len(days)]}{(j * 7) % 24:02d}{(j * 13) % 60:02d}{ss:02d}{ff:02d}"
+        cases.append(dict(level="1.5", seed=chk.seed + 9000 + j % 3, k=0, files=("VOL",), images=(("HH", None, 1, 1),), nfp=3, ctx=dict(creation_datetime=stamp),
+                          fs="local", stamp=stamp))
     # all text fields blank at once (padding only): attributes are empty strings, nothing else changes
-    results, total = lc.replay(chk, cases, "volume", lambda c: f"plan={c['k']}{'r' if c.get('random_classes') else ''}:nfp={c.get('nfp')}")
+    results, total = lc.replay(chk, cases, "volume", lambda c: f"plan={c['k']}{'r' if c.get('random_classes') else ''}:nfp={c.get('nfp')}" + (f":stamp={c['stamp'][12:]}" if c.get("stamp") else ""))
     ok = next(r for r in results if r["open"] == "ok")
     chk.sample({"plan": ok["case"]["k"], "file_pointer_records": ok["case"].get("nfp"), "attributes_compared": ok["n"]})
     chk.assumptions += ["creation date-time: the ISO-8601 attribute is compared as an instant with the 16-character field"]
